@@ -35,7 +35,7 @@ UPGRADES = [True, False]
 TRANSPORTS = [None, ['polling'], ['websocket'], ['polling', 'websocket']]
 COOKIES = ['none', 'name', 'dict-str', 'dict-mixed']
 OUTCOMES = ['none', 'true', 'false', 'zero', 'empty', 'text', 'dict', 'list', 'raise', 'one',
-            'one-float']
+            'one-float', 'raise-typeerror']
 KINDS = ['polling', 'websocket']
 JSONP = [None, 5]
 IMPLS = ['thread', 'async']
@@ -106,6 +106,8 @@ def check_cell(c, ctx=None, greets=None):
     try:
         if outcome == 'raise':
             w.app_log.outcome_by_ord[0] = ('raise',)
+        elif outcome == 'raise-typeerror':
+            w.app_log.outcome_by_ord[0] = ('raise', 'TypeError')
         elif outcome != 'none':
             w.app_log.outcome_by_ord[0] = ('ret', OUTCOME_VALUE[outcome])
         w.app_log.connect_sends = ['G%d~' % (k + 1) for k in range(greets)]
